@@ -436,7 +436,8 @@ def info_cases(ctx, info_exe, wd, stats, n):
                     offs = [int(x) for x in l['off'].split(',')]
                     fixed = [o for o, v in zip(offs, c['p'].s.vars) if not v.isrec]
                     recs = [o for o, v in zip(offs, c['p'].s.vars) if v.isrec]
-                    if int(l['hext']) % ha != 0 and not c['ea']:
+                    if fixed and int(l['hext']) % ha != 0:
+                        # (without a fixed-size variable the extent is the start of the record section)
                         bad.append((c, 'reported nc_header_align_size %d does not divide the header extent %s' % (ha, l['hext']), pout))
                     elif recs and min(recs) % ra != 0:
                         bad.append((c, 'reported nc_record_align_size %d does not divide the record section start %d' % (ra, min(recs)), pout))
